@@ -1017,6 +1017,29 @@ theorem generic_routing_local (self next : Nat) (cparams : List (Bool × Nat)) (
 example : genericTargets 0 2 [(true, 0), (true, 0)] [[(true, 0), (true, 0)], [(true, 1), (true, 0)]] = [0, 4] ∧
     genericTargets 1 6 [(true, 0), (true, 0)] [[(true, 0), (true, 0)], [(true, 1), (true, 0)]] = [1, 8] := by decide
 
+/-! ### implied arguments, for every wrapper including fortran_generic clones -/
+
+/-- `+implied(type(a))`: the library receives the type code of `a` as declared in the function being
+    wrapped - for a fortran_generic clone the clone's own declaration - whatever the caller passes -/
+theorem implied_type_is_own_declaration (actual actual' : Nat → Option Val) (sh : Nat → Nat) (a : Nat) :
+    (IExpr.typ a).eval actual sh = some (.int (sh a)) ∧
+    (IExpr.typ a).eval actual sh = (IExpr.typ a).eval actual' sh ∧
+    (IExpr.typ a).render sh = [.shType (sh a)] := ⟨rfl, rfl, rfl⟩
+
+/-- `size(a)`, `len(s)`, `len_trim(s)`, `true`, `false` and arithmetic over them evaluate to the
+    Fortran inquiry values of the caller's own actuals -/
+theorem implied_eval (actual : Nat → Option Val) (sh : Nat → Nat) (a s : Nat) (arr : List Int) (t : Buf)
+    (ha : actual a = some (.arr arr)) (hs : actual s = some (.buf t)) :
+    (IExpr.size a).eval actual sh = some (.int arr.length) ∧
+    (IExpr.len s).eval actual sh = some (.int t.length) ∧
+    (IExpr.lenTrim s).eval actual sh = some (.int (rtrim t).length) ∧
+    IExpr.tru.eval actual sh = some (.bool true) ∧ IExpr.fls.eval actual sh = some (.bool false) ∧
+    (IExpr.bin 1 (.bin 3 (.size a) (.const 2)) (.const 1)).eval actual sh = some (.int (arr.length * 2 + 1)) := by
+  simp [IExpr.eval, ha, hs, inquiry]
+
+example : (IExpr.bin 2 (.const 1) (.neg (.const 1))).render (fun _ => 0) = [.num 1, .op 2, .lp, .op 2, .num 1, .rp] := by
+  decide
+
 /-! ## non-vacuity: concrete instances of the hypotheses used above -/
 
 example : runArg Kind.charOut.fspec (Kind.charOut.cspec false) true (.buf [113, 113, 113, 113])
